@@ -196,13 +196,13 @@ func (g *G) stmt() {
 		}
 		g.ifStmt()
 	case pick(w.fors):
-		if deep || g.loopDepth >= 2 {
+		if deep || g.loopDepth >= g.maxLoopDepth() {
 			g.assignStmt()
 			return
 		}
 		g.forStmt()
 	case pick(w.ranges):
-		if deep || g.loopDepth >= 2 {
+		if deep || g.loopDepth >= g.maxLoopDepth() {
 			g.printStmt()
 			return
 		}
@@ -232,6 +232,15 @@ func (g *G) stmt() {
 	default:
 		g.stdlibStmt()
 	}
+}
+
+// maxLoopDepth: functions other than main may be called from loops of their
+// callers, so they nest loops one level only (the call tree multiplies).
+func (g *G) maxLoopDepth() int {
+	if g.inRecursive {
+		return 1
+	}
+	return 2
 }
 
 func (g *G) printStmt() {
